@@ -348,11 +348,24 @@ var (
 	farFuture = time.Date(2100, 1, 1, 0, 0, 0, 0, time.UTC).Unix()
 )
 
+// the range google.protobuf.Timestamp documents as valid: 0001-01-01T00:00:00Z .. 9999-12-31T23:59:59.999999999Z.
+// Go's time and the stores work beyond it (ExpiresAt = EndsAt + retention is computed unchecked), so the generators
+// include the boundaries and values past them.
+const (
+	maxTS = 253402300799
+	minTS = -62135596800
+)
+
 func genTS(r *vh.Rand, future bool) TS {
 	if future {
+		if r.Chance(1, 5) {
+			return TS{Set: true, S: maxTS + vh.Pick(r, []int64{-3600, 0, 1, 432000}), N: vh.Pick(r, []int32{0, 999999999})}
+		}
 		return TS{Set: true, S: farFuture + int64(r.Intn(1000000)), N: int32(r.Intn(1000000000))}
 	}
-	switch r.Intn(8) {
+	switch r.Intn(9) {
+	case 8:
+		return TS{Set: true, S: vh.Pick(r, []int64{maxTS, maxTS + 1, minTS, minTS - 1, maxTS + 432000}), N: vh.Pick(r, []int32{0, 999999999})}
 	case 0:
 		return TS{Set: true} // present but zero: an empty submessage
 	case 1:
